@@ -356,9 +356,12 @@ def _const_prefix(prog: Program, run: Run) -> None:
         en = cfg.node_of(_stmt(f.node, encs[0]))
         conds = [t for t, p in cfg.branch_conditions(en) if p]
         txt = " ".join(ast.unparse(c) for c in conds)
+        want_cmp = norm_test(ast.parse("param.request_byte_position < len(request_prefix)",
+                                       mode="eval").body)
+        has_cmp = any(isinstance(k, ast.Compare) and norm_test(k) == want_cmp
+                      for c in conds for k in ast.walk(c))
         ok = "CodedConstParameter" in txt and "PhysicalConstantParameter" in txt and \
-            "MatchingRequestParameter" in txt and "request_byte_position < len(request_prefix)" \
-            in txt
+            "MatchingRequestParameter" in txt and has_cmp
         if ok:
             run.ok(R, f.qual, "constants (and matching-request parameters inside the request "
                    "prefix) are encoded; the first other parameter ends the prefix",
